@@ -395,6 +395,7 @@ func (p *path) rangeIter(x value, t types.Type) value {
 				it.permute = false
 			} else if p.choose(2) == 1 {
 				p.envChoices++
+				p.envDeviations++
 				p.permUsed = true
 			} else {
 				it.permute = false
@@ -417,6 +418,9 @@ func (p *path) iterNext(itv value, instr *ssa.Next) value {
 			if it.permute && p.cfg.PermuteMaps && len(it.order) > 1 {
 				k = p.choose(len(it.order))
 				p.envChoices++
+				if k != 0 {
+					p.envDeviations++
+				}
 			}
 			key := it.order[k]
 			it.order = append(it.order[:k:k], it.order[k+1:]...)
